@@ -129,7 +129,7 @@ Section Msg.
   (** [size_constraints.assert_done()]: every listed constraint must be obsolete by now *)
   Definition list_assert_done : M unit :=
     s <- get ;;
-    if forallb (fun i => sc_obs (get_sc s i)) (lst s) then ret tt else internal_ IAssertMaxNone.
+    if forallb (fun i => sc_obs (get_sc s i)) (lst s) then ret tt else internal_ IListNotDone.
 
   Definition rsp_obj (rvals : list (string * option value)) : value := VStruct_ (TyN "Response") (rev rvals).
 
